@@ -54,6 +54,15 @@ func init() {
 				cfg.PCrash = 0.01
 			}
 			withMembership(cfg, r, 0.25)
+			if r.Bool(0.2) {
+				// commit handlers that report an error after having applied the block:
+				// the insertion of the event that triggered the commit still succeeds
+				cfg.PAppError = 0.05
+			}
+			// (cfg.PStoreErr - transient write errors of a persistent node's database -
+			// exists as a fault kind but is not part of any profile: C05 quantifies
+			// over sync failures and truncations, and the unchanged tree does not
+			// survive a refused database write - see DESIGN II.8)
 			return cfg
 		},
 		run: clusterRun,
@@ -129,6 +138,10 @@ func init() {
 				cfg.MaxLeaves = 0
 				cfg.PSilence = 0
 				cfg.Steps += 150
+			}
+			if r.Bool(0.2) {
+				// blocks the application refused (commit handler reports an error)
+				cfg.PAppError = 0.05
 			}
 			return cfg
 		},
@@ -475,6 +488,9 @@ func init() {
 					cfg.Quorumless = true
 					cfg.PSilence = 0.07
 				}
+				if r.Bool(0.5) {
+					cfg.ChattyPair = true
+				}
 			}
 			return cfg
 		},
@@ -540,13 +556,32 @@ func init() {
 			}
 			cfg.PSubmit = 0.3
 			withMembership(cfg, r, 0.3)
+			if cfg.N0 >= 2 && r.Bool(0.5) {
+				// persistent nodes that are killed / shut down and restarted with
+				// bootstrap, keep running, and are restarted again: what they wrote in
+				// every one of their lives must be in the database (write-through check)
+				for i := 1; i < cfg.N0; i++ {
+					if r.Bool(0.7) {
+						cfg.Stores[i] = "badger"
+					}
+				}
+				cfg.PCrash = 0.04
+				cfg.BadgerCache = []int{0, 0, 100, 200}[r.Intn(4)]
+				cfg.Steps += 60
+			}
 			return cfg
 		},
 		run: func(c *Cluster, spec *runSpec) {
 			// node 0 records every write it issues
 			c.recordWrites = true
+			c.stepHook = func(s *Step) {
+				if c.stepNo%20 == 0 || s.Op == "restart" || s.Op == "cleanrestart" {
+					c.checkDBMirrorAll()
+				}
+			}
 			c.genesis()
 			c.drive(spec)
+			c.checkDBMirrorAll()
 			c.finalChecks(spec)
 			if c.recorder != nil && len(c.recorder.ops) > 0 {
 				c.runStoreEngine(c.recorder.ops)
